@@ -18,6 +18,18 @@ def sh(cmd, cwd=None, timeout=1800):
     p = subprocess.run(cmd, cwd=cwd, env=ENV, shell=isinstance(cmd, str), stdout=subprocess.PIPE, stderr=subprocess.STDOUT, text=True, timeout=timeout)
     return p.returncode, p.stdout
 
+def run_check(p, env):
+    t0 = time.time()
+    pr = subprocess.run(["python3", os.path.join(VERIF, "tools", "check.py"), p, "--tier", "quick"], cwd=VERIF, env=env,
+                        stdout=subprocess.PIPE, stderr=subprocess.STDOUT, text=True, timeout=3000)
+    rc, out = pr.returncode, pr.stdout
+    viol = [l for l in out.splitlines() if l.startswith("VIOLATION")]
+    return {"exit": rc, "flagged": rc == 1 and bool(viol),
+            "failing_input_found": bool(viol) and "no-failing-input-found" not in viol[0],
+            "broken": [l for l in out.splitlines() if l.startswith("BROKEN")][:6],
+            "failing_kinds": sorted(set(l.split("]")[0][len("FAILING INPUT ["):] for l in out.splitlines() if l.startswith("FAILING INPUT [")))[:8],
+            "wall_s": round(time.time() - t0, 1)}
+
 def main():
     src, sid = sys.argv[1], sys.argv[2]
     extra = []
@@ -59,7 +71,20 @@ def main():
     shutil.copy(os.path.join(src, "patch.diff"), os.path.join(dst, "patch.diff"))
     shutil.copy(os.path.join(src, demo), os.path.join(dst, demo))
     checks = {}
-    if ok:
+    scratch = "--scratch" in sys.argv
+    if ok and scratch:
+        # same as below, but the change is applied to a scratch worktree of /repo's HEAD and the check is pointed at it
+        # (VERIF_REPO), so that other runs reading /repo are not disturbed
+        sr = "/tmp/seedrepo_%s" % sid
+        sh(["git", "-C", "/repo", "worktree", "remove", "--force", sr]); shutil.rmtree(sr, ignore_errors=True)
+        sh(["git", "-C", "/repo", "worktree", "add", "--detach", sr, "HEAD"])
+        try:
+            rc, out = sh(["git", "apply", os.path.join(dst, "patch.diff")], cwd=sr)
+            for p in [prop] + extra:
+                checks[p] = run_check(p, dict(ENV, VERIF_REPO=sr))
+        finally:
+            sh(["git", "-C", "/repo", "worktree", "remove", "--force", sr]); shutil.rmtree(sr, ignore_errors=True)
+    elif ok:
         # /repo must have no tracked modifications
         rc, out = sh("git -C /repo status --porcelain | grep -v '^??' | grep -v 's2/export_verif_' || true")
         if out.strip():
@@ -67,20 +92,13 @@ def main():
         try:
             rc, out = sh(["git", "-C", "/repo", "apply", os.path.join(dst, "patch.diff")])
             for p in [prop] + extra:
-                t0 = time.time()
-                rc, out = sh(["python3", os.path.join(VERIF, "tools", "check.py"), p, "--tier", "quick"], cwd=VERIF, timeout=3000)
-                viol = [l for l in out.splitlines() if l.startswith("VIOLATION")]
-                checks[p] = {"exit": rc, "flagged": rc == 1 and bool(viol),
-                             "failing_input_found": bool(viol) and "no-failing-input-found" not in viol[0],
-                             "broken": [l for l in out.splitlines() if l.startswith("BROKEN")][:6],
-                             "failing_kinds": sorted(set(l.split("]")[0][len("FAILING INPUT ["):] for l in out.splitlines() if l.startswith("FAILING INPUT [")))[:8],
-                             "wall_s": round(time.time() - t0, 1)}
+                checks[p] = run_check(p, ENV)
         finally:
             sh(["git", "-C", "/repo", "apply", "-R", os.path.join(dst, "patch.diff")])  # undo exactly this change
     meta_out = {"property": prop, "source": "independent sub-agent given only the property text (tools/mutprompt.py)",
                 "summary": meta.get("summary"), "needs": meta.get("needs"), "files_changed": meta.get("files_changed"),
                 "demo_pkg_dir": pkg, "demo_cmd": cmd, "verification": {k: v for k, v in res.items() if not k.startswith("demo_output") and k != "suite_output"},
-                "what_i_ran": "tools/seed_verify.py: scratch worktree of /repo (apply, go build ./..., go test ./..., demo with/without); then git -C /repo apply, tools/check.py <id> --tier quick, git -C /repo checkout -- .",
+                "what_i_ran": "tools/seed_verify.py: scratch worktree of /repo (apply, go build ./..., go test ./..., demo with/without); then " + ("the patch applied to a second scratch worktree of /repo HEAD and tools/check.py <id> --tier quick pointed at it (VERIF_REPO)" if scratch else "git -C /repo apply, tools/check.py <id> --tier quick, git -C /repo apply -R"),
                 "checks": checks}
     json.dump(meta_out, open(os.path.join(dst, "meta.json"), "w"), indent=1)
     print(json.dumps({"id": sid, "confirmed": res["confirmed"], "checks": checks, "why_not": {k: v for k, v in res.items() if v is False}}, indent=1))
